@@ -221,9 +221,17 @@ def updateAVS (s : State) (p : AvsParams) : State × String :=
 
 def isOptedIn (s : State) (op : String) (avs : Addr) : Bool := KV.find? s.opted (op, avs) == some true
 
+/-- avs.go: GetAVSMinimumSelfDelegation — `LegacyNewDecFromBigInt(new(big.Int).SetUint64(min))`: the
+minimum in whole USD as an exact 18-decimal value (the pre-fix `int64(min)` wrap is `toI64`). -/
+def minSelfDec (n : Nat) : Dec := Dec.ofInt (n : Int)
+
+/-- opt.go: OptIn, the guard `operatorUSDValues.SelfUSDValue.LT(minSelfDelegation)`: the two exact
+18-decimal values are compared — no rounding, no truncation to whole USD. Tied to the regenerated
+translation of the guard expression by `C20_tie_optin_min_compare`. -/
+def selfDelegationTooLow (self min : Dec) : Bool := Dec.lt self min
+
 /-- opt.go: OptIn. `selfUSD` = GetOrCalculateOperatorUSDValues(...).SelfUSDValue as a raw 18-decimal
-integer (none = the calculation failed). `GetAVSMinimumSelfDelegation` is
-`LegacyNewDecFromBigInt(new(big.Int).SetUint64(min))` (exact; the pre-fix `int64(min)` wrap is `toI64`). -/
+integer (none = the calculation failed). -/
 def optInCore (s : State) (op : String) (avs : Addr) (selfUSD : Option Int) (noOp noAvs : String) : State × String :=
   if !s.operators.contains op then (s, noOp)
   else match KV.find? s.avss avs with
@@ -233,7 +241,7 @@ def optInCore (s : State) (op : String) (avs : Addr) (selfUSD : Option Int) (noO
     else match selfUSD with
     | none => (s, "rej")
     | some usd =>
-      if usd < (a.minSelf : Int) * PREC then (s, "ErrMinDelegationNotMet")
+      if selfDelegationTooLow ⟨usd⟩ (minSelfDec a.minSelf) then (s, "ErrMinDelegationNotMet")
       else ({ s with opted := KV.set s.opted (op, avs) true }, "ok")
 
 /-- opt.go: OptOut (no operator is jailed or frozen in the modelled histories) -/
